@@ -6,6 +6,7 @@ package main
 
 import (
 	"context"
+	"errors"
 	"fmt"
 	"strings"
 	"sync"
@@ -55,6 +56,8 @@ type plRun struct {
 	conv     *traceConv
 	obs      *ackObserver
 }
+
+var errFlushHung = errors.New("Flush did not return within 8s")
 
 func badRow() map[string]any { return map[string]any{"x": make(chan int)} }
 
@@ -203,7 +206,15 @@ func runPlScenario(r Rng, sc plScenario) *plRun {
 			fb := &batch{kind: "force"}
 			ctx, cancel := context.WithTimeout(context.Background(), 3*time.Second)
 			fb.tCall = time.Now()
-			fb.ret = eng.Flush(ctx)
+			// Flush waits for its own acknowledgement whatever its context: under a watchdog, so that a Flush
+			// that is never answered is a finding of this run and not the end of the check
+			fret := make(chan error, 1)
+			go func() { fret <- eng.Flush(ctx) }()
+			select {
+			case fb.ret = <-fret:
+			case <-time.After(8 * time.Second):
+				fb.ret = errFlushHung
+			}
 			fb.tRet = time.Now()
 			if fb.ret == nil {
 				obs.flushReturned(fb.tCall)
@@ -329,6 +340,12 @@ func checkRun(c *ctx, run *plRun, which string) {
 		}
 	}
 	c.r.Case(accepted > 0, key)
+	for _, fb := range run.flushes {
+		if fb.ret == errFlushHung {
+			c.r.Add(Finding{Kind: "violation", Check: "unanswered-flush", Detail: "a Flush call did not return within 8s: the acknowledgement of its flush request was never delivered", Replay: run.replay()})
+			break
+		}
+	}
 	c.r.Hit("pipeline.stop." + sc.Stop + "." + map[bool]string{true: "nil", false: "err"}[run.stopErr == nil])
 	c.r.Hit("pipeline.store." + sc.Store)
 
